@@ -28,7 +28,7 @@
                        improper.
      shiftmul_subst_mon  (Q (y + c))^a g  ==  prod_i (Q_i . y + Q_i . c)^(a_i) g     (used by Proofs/RotationP.v) *)
 From Coq Require Import List Arith Lia Field.
-From GB Require Import Base.Field Gauss.Moment1D.
+From GB Require Import Base.Field Base.FNum Gauss.Moment1D.
 Import ListNotations.
 
 Inductive axis : Set := AX | AY | AZ.
@@ -701,6 +701,31 @@ Proof.
   apply E3_peq. apply (rotated_factor R cC cC' k _ _ HO HC).
   apply (rotated_factor R cA cA' a _ _ HO HA).
   apply (rotated_factor R cB cB' b _ _ HO HB). apply peq_sym, subst_one3.
+Qed.
+
+
+(* ------------------------------------------------------------------ *)
+(* 8. evaluation at a point: [subst] really is substitution (pins the meaning of [subst_mon]) *)
+Notation fpow := (FNum.fpow K).
+Definition monoval (u : axis -> F) (m : mon) : F :=
+  fpow (u AX) (fst (fst m)) * fpow (u AY) (snd (fst m)) * fpow (u AZ) (snd m).
+Definition peval (u : axis -> F) (f : poly3) : F := Jsum (monoval u) f.
+
+Lemma peval_mullin u l f : peval u (mullin l f) = dot l u * peval u f.
+Proof.
+  unfold peval. rewrite Jsum_mullin, <- Jsum_Jscale. apply Jsum_ext. intros [[a b] c].
+  unfold mullinT, monoval, dot, sum3. cbn [bump fst snd FNum.fpow]. ring.
+Qed.
+Lemma peval_powop_mullin u l n f : peval u (powop (mullin l) n f) = fpow (dot l u) n * peval u f.
+Proof. induction n as [|n IH]; cbn [powop FNum.fpow]; [ring|]. rewrite peval_mullin, IH. ring. Qed.
+Lemma peval_subst_mon u R m : peval u (subst_mon R m) = monoval (fun i => dot (R i) u) m.
+Proof.
+  unfold subst_mon. rewrite !peval_powop_mullin. unfold peval, one3, mono3, monoval.
+  cbn [Jsum fst snd FNum.fpow expo]. ring.
+Qed.
+Theorem peval_subst u R f : peval u (subst R f) = peval (fun i => dot (R i) u) f.
+Proof.
+  unfold peval, subst. rewrite Jsum_lift. apply Jsum_ext. intro m. apply peval_subst_mon.
 Qed.
 
 End Poly3.
